@@ -260,6 +260,12 @@ def judge_c07(spec, res, kind, data_text, data_time, normalise_time):
     if d0 != d1 and not (d0 <= min(tn) and max(tn) <= d1):
         probs.append({"rule": "domain-does-not-cover-data", "reported": dom})
     exp = expected_positions(taus, dom, geo.L)
+    if d0 != d1 and any(isinstance(t, dt.datetime) and t.microsecond % 1000 for t in taus):
+        # a time finer than a millisecond is not a whole number of epoch milliseconds: its float carries up to half an ulp of
+        # ~1e12 ms (0.1-0.5 us), which a short domain magnifies by axis length / domain span
+        import math
+
+        tol_pos += 4 * math.ulp(float(max(abs(x) for x in tn + [d0, d1]))) * geo.L / float(abs(d1 - d0))
     got = sorted(d["pos"] for d in P.dots)
     if any(d["orient"] != geo.orient for d in P.dots):
         probs.append({"rule": "dot-off-axis-line", "orient": [d["orient"] for d in P.dots][:5]})
